@@ -3039,7 +3039,7 @@ def check(ctx):
     for kind in SOLVERS:
         for close in (True, False):
             run_oracle(ctx, 'refill', gen_refill_case(rr, kind, close))
-    for _ in range(0 if quick else 400):
+    for _ in range(0 if quick else 200):
         run_oracle(ctx, 'refill', gen_refill_case(rr))
     first = len(CORPUS_HISTORIES) + len(many) + len(robust)
     for case in cases[first:first + (nh if quick else nh // 4)]:
